@@ -226,9 +226,12 @@ def build_tasks(run, quick):
         ids = [(n + off) % ncfg] if quick else [(n + off) % ncfg, (n + off + 3) % ncfg]
         tasks.append((_pj(p), ids, True))
     for n, p in enumerate(ctx):
-        if not quick or p.shape in ('entity', 'lambda'):
+        if p.shape == 'test' and not quick:
+            # every feature subset, recursive alternating
+            ids = [2 * k + ((n + k + off) % 2) for k in range(ncfg // 2)]
+        elif not quick or p.shape in ('entity', 'lambda'):
             ids = list(range(ncfg))
-        elif p.construct in ALL_CFG_CONSTRUCTS:
+        elif p.construct in ALL_CFG_CONSTRUCTS or (p.shape == 'test' and p.construct[2:] in cx.EQ_SENSITIVE_TESTS):
             # every feature subset, recursive alternating (it only changes the options expression of FunctionScope)
             ids = [2 * k + ((n + k + off) % 2) for k in range(ncfg // 2)]
         else:
@@ -336,8 +339,10 @@ def check(run, only_corpus=None):
     import c04_exprs as cx, c04_dyn as dyn
     quick = run.tier == 'quick'
     run.rule = ('programs: progen skeletons (bounded-exhaustive, stride-sampled), progen random programs, and the systematic '
-                'context enumeration (each construct of c04_exprs.EXPR_CONSTRUCTS/STMT_CONSTRUCTS in each context of '
-                'EXPR_CONTEXTS/STMT_CONTEXTS, entity-level shapes, lambda entities, malformed directives); configurations: every '
+                'context enumeration (each construct of c04_exprs.EXPR_CONSTRUCTS/STMT_CONSTRUCTS in each context of EXPR_CONTEXTS/STMT_CONTEXTS; '
+                'the test-position matrix: every expression kind of TEST_EXPRS — all comparison operators incl. is/is not/in/not in, chained and '
+                'mixed — as the bare test of every position of TEST_POSITIONS: if/elif/while/ifexp/assert/comprehension/…; '
+                'entity-level shapes, lambda entities, malformed directives); configurations: every '
                 'subset of {BUILTIN_FUNCTIONS, EQUALITY_OPERATORS} x recursive in {T,F} (all 8 for entity shapes and in the thorough tier, '
                 'every feature subset for option-sensitive constructs, rotating otherwise) plus two LISTS configurations on programs '
                 'with subscripts/lists (slices.py modelled, lists.py not). A case = (program, configuration); non-trivial = conversion '
